@@ -297,6 +297,20 @@ func init() {
 		"strings.NewReader": func(in *Interp, fn *ssa.Function, a []Value) Value {
 			return Ptr{in.newCell(&HostObj{kind: "membuf", v: &memBuf{data: in.p.res(nfOf(a[0]))}})}
 		},
+		"sort.Strings": func(in *Interp, fn *ssa.Function, a []Value) Value {
+			s := a[0].(SliceV)
+			// insertion sort; comparisons on symbolic strings fork
+			for i := 1; i < s.n; i++ {
+				for j := i; j > 0; j-- {
+					x, y := s.a.e[s.off+j-1], s.a.e[s.off+j]
+					if !in.p.branch("sort-less", in.p.simp(&B{k: BStrLt, a: nfOf(y.v), b: nfOf(x.v)})) {
+						break
+					}
+					x.v, y.v = y.v, x.v
+				}
+			}
+			return nil
+		},
 		// ---------------------------------------------------------------- strconv
 		"strconv.Atoi": func(in *Interp, fn *ssa.Function, a []Value) Value {
 			v, ok := in.p.atoi(nfOf(a[0]))
